@@ -50,6 +50,7 @@ let canon_msg (req : bool) (m : M.msg) : string =
 
 let parser_case (toks : string list) : string =
   match toks with
+  | "PV" :: _ -> "PV"
   | mode :: k :: maxsz :: segs when mode = "P" || mode = "Q" ->
     let req = (k = "R") in
     let kind = if req then M.KRequest else M.KResponse in
